@@ -166,9 +166,26 @@ struct LogWriter {
   }
 };
 
+// ---- call-counting wrapper -------------------------------------------------------------------
+// Forwards every primitive call to a library reader and throws once a call budget is exceeded.
+// Gives "Read terminates" (C02) a deterministic, clock-free oracle: an honest decode issues a
+// bounded number of reader calls per input byte.
+struct CallBudgetExceeded {};
+template <typename R>
+struct CountingReader {
+  R* r = nullptr;
+  uint64_t calls = 0, budget = ~0ull;
+  void tick() { if (++calls > budget) throw CallBudgetExceeded(); }
+  nop::Status<void> Ensure(std::size_t n) { tick(); return r->Ensure(n); }
+  nop::Status<void> Read(std::uint8_t* b) { tick(); return r->Read(b); }
+  template <typename T, typename Enable = nop::EnableIfArithmetic<T>>
+  nop::Status<void> Read(T* b, T* e) { tick(); return r->Read(b, e); }
+  nop::Status<void> Skip(std::size_t n) { tick(); return r->Skip(n); }
+};
+
 // ---- reader box ------------------------------------------------------------------------------
-enum RK : int { R_Buf, R_Ped, R_Str, R_Fd, R_Log, R_BBuf, R_BPed, R_BStr, R_BLog, R_FStr, R_COUNT };
-inline const char* rk_name(int k) { static const char* n[] = {"BufferReader", "PedanticBufferReader", "StreamReader", "FdReader", "LogReader", "Bounded<BufferReader>", "Bounded<PedanticBufferReader>", "Bounded<StreamReader>", "Bounded<LogReader>", "StreamReader<ifstream>"}; return k >= 0 && k < R_COUNT ? n[k] : "?"; }
+enum RK : int { R_Buf, R_Ped, R_Str, R_Fd, R_Log, R_BBuf, R_BPed, R_BStr, R_BLog, R_FStr, R_CPed, R_CBuf, R_COUNT };
+inline const char* rk_name(int k) { static const char* n[] = {"BufferReader", "PedanticBufferReader", "StreamReader", "FdReader", "LogReader", "Bounded<BufferReader>", "Bounded<PedanticBufferReader>", "Bounded<StreamReader>", "Bounded<LogReader>", "StreamReader<ifstream>", "PedanticBufferReader(call-counted)", "BufferReader(call-counted)"}; return k >= 0 && k < R_COUNT ? n[k] : "?"; }
 inline bool rk_bounded(int k) { return k >= R_BBuf && k <= R_BLog; }
 inline bool rk_has_handles(int k) { return k == R_Log || k == R_BLog; }
 inline bool rk_has_skip(int k) { return k != R_Fd; }
@@ -202,6 +219,8 @@ struct ReaderBox {
   nop::BoundedReader<nop::PedanticBufferReader> bped;
   nop::BoundedReader<SStreamReader> bstr;
   nop::BoundedReader<LogReader> blog;
+  CountingReader<nop::PedanticBufferReader> cped;
+  CountingReader<nop::BufferReader> cbuf;
   size_t limit = 0;
 
   ReaderBox() = default;
@@ -221,6 +240,8 @@ struct ReaderBox {
       case R_BPed: ped = nop::PedanticBufferReader(mem.get(), len); bped = nop::BoundedReader<nop::PedanticBufferReader>(&ped, limit); break;
       case R_BStr: str.reset(new SStreamReader(std::string((const char*)mem.get(), len))); bstr = nop::BoundedReader<SStreamReader>(str.get(), limit); break;
       case R_BLog: log = LogReader(); log.data = mem.get(); log.n = len; blog = nop::BoundedReader<LogReader>(&log, limit); break;
+      case R_CPed: ped = nop::PedanticBufferReader(mem.get(), len); cped = CountingReader<nop::PedanticBufferReader>(); cped.r = &ped; cped.budget = 64 * ((uint64_t)len + 64); break;
+      case R_CBuf: buf = nop::BufferReader(mem.get(), len); cbuf = CountingReader<nop::BufferReader>(); cbuf.r = &buf; cbuf.budget = 64 * ((uint64_t)len + 64); break;
       case R_FStr: {
         if (fstr_fd >= 0) ::close(fstr_fd);
         fstr_fd = make_memfd(mem.get(), len);
@@ -231,11 +252,13 @@ struct ReaderBox {
   }
   ~ReaderBox() { fstr.reset(); if (fstr_fd >= 0) ::close(fstr_fd); }
   void open(int k, const Bytes& b, size_t lim = SIZE_MAX) { open(k, b.data(), b.size(), lim); }
+  // FdReader over a descriptor supplied by the caller (e.g. the read end of a pipe); owned from now on.
+  void open_fd(int rfd) { kind = R_Fd; n = 0; fdnum = rfd; fd.reset(new nop::FdReader(rfd)); }
   // Bytes consumed from the underlying source so far.
   size_t position() {
     switch (kind) {
-      case R_Buf: case R_BBuf: return buf.capacity() - buf.remaining();
-      case R_Ped: case R_BPed: return ped.capacity() - ped.remaining();
+      case R_Buf: case R_BBuf: case R_CBuf: return buf.capacity() - buf.remaining();
+      case R_Ped: case R_BPed: case R_CPed: return ped.capacity() - ped.remaining();
       case R_Str: case R_BStr: { auto p = str->stream().rdbuf()->pubseekoff(0, std::ios_base::cur, std::ios_base::in); return p < 0 ? SIZE_MAX : (size_t)p; }
       case R_Fd: return (size_t)lseek(fdnum, 0, SEEK_CUR);
       case R_Log: case R_BLog: return log.pos;
